@@ -239,7 +239,7 @@ UNITS += _load('C02fi').UNITS
 UNITS += [dict(u) for u in _load('C03').UNITS if u['name'] in ('range', 'services_by_group', 'read_by_group_type', 'find_by_type_value')]
 # the bodies of the two group discovery handlers; the iteration over the type list of services enters as the summary of the step contracts above (C01gh.py)
 if not os.environ.get('BT_LOADING_C01GH'):   # C01gh.py builds on this module's EX / CODE: no recursion
-    UNITS.append(_load('C01gh').UNIT)
+    UNITS.append(_load('C01gh').UNIT); UNITS.append(_load('C01gh').IT_UNIT); UNITS.append(_load('C01gh').IT2_UNIT)
 META = dict(
     level='proof',
     explanation="Read By Type, real bodies: all_attributes (loop contract), last_handle_index, check_size_and_handle_range<A,B>, "
